@@ -8,8 +8,10 @@ pub mod c04;
 pub mod c05;
 pub mod c06;
 pub mod c07;
+pub mod c12;
 pub mod c13;
 pub mod c14;
+pub mod c18;
 pub mod c19;
 pub mod c17;
 
@@ -45,8 +47,10 @@ props! {
     "C05" => c05::C05,
     "C06" => c06::C06,
     "C07" => c07::C07,
+    "C12" => c12::C12,
     "C13" => c13::C13,
     "C14" => c14::C14,
+    "C18" => c18::C18,
     "C19" => c19::C19,
     "C17" => c17::C17,
 }
